@@ -296,6 +296,51 @@ def job_hkl_elements(job, seed):
     return {'obligations': obs, 'candidates': cands, 'paths': 1}
 
 
+def job_qvec_layout(job, seed):
+    """Reassembling components is lossless label by label: the components are 2-d arrays over the same labelled dims, but one
+    of them is stored with its dims in the other order (the result of a transpose) - scipp operations align by dim label."""
+    which = job
+    import numpy as np
+    from symex import core as C
+    from symsc import variable as V
+    from .symutil import fresh_run
+
+    sc, tof = _load()
+    fresh_run()
+    obs, cands = [], []
+    case = {'kind': 'qvec-layout', 'transposed': which}
+    n = 2
+    vals = {c: [[C.sym_var(f'{c}_{i}{j}') for j in range(n)] for i in range(n)] for c in 'xyz'}
+    unit = V.Unit() / V.parse_unit('angstrom')
+
+    def mk(c, transposed):
+        a = np.empty((n, n), dtype=object)
+        for i in range(n):
+            for j in range(n):
+                if transposed:
+                    a[j, i] = vals[c][i][j]
+                else:
+                    a[i, j] = vals[c][i][j]
+        return V.Variable(_arr=a, dims=('b', 'a') if transposed else ('a', 'b'), unit=unit, dtype=V.DType.float64)
+
+    comps = {c: mk(c, c in which) for c in 'xyz'}
+    tag = f'Q_vec[2-d components, {which or "none"} stored transposed]'
+    qv = _single(C.explore(lambda: tof.Q_vec_from_Q_elements(Qx=comps['x'], Qy=comps['y'], Qz=comps['z'])), obs, cands, tag, case)
+    if qv is not None:
+        good = C.B.const(set(qv.dims) == {'a', 'b'} and qv.unit == unit)
+        if set(qv.dims) == {'a', 'b'}:
+            for i in range(n):
+                for j in range(n):
+                    el = qv['a', i]['b', j]
+                    ev = list(np.asarray(el._a, dtype=object).reshape(-1))
+                    good = good & C.all_of([ev[k] == vals[c][i][j] for k, c in enumerate('xyz')])
+        ob = C.prove(f'{tag}:Q_vec[a=i, b=j] = (Qx[a=i, b=j], Qy[a=i, b=j], Qz[a=i, b=j])', good)
+        obs.append(ob_dict(ob))
+        if ob.status == 'violated':
+            cands.append(('C08:Q_vec:layout', case, 'components paired by storage position instead of by dim label'))
+    return {'obligations': obs, 'candidates': cands, 'paths': 1}
+
+
 def job_inv_model(job, seed):
     """The adjugate model of spatial.inv satisfies M.inv(M) = I (so the hook's contract is what the shim itself provides)."""
     from symex import core as C
@@ -328,6 +373,7 @@ def run(chk):
     run_jobs(chk, job_hkl, ['scalar', 'array', 'grains'])
     run_jobs(chk, job_inv_model, [0])
     run_jobs(chk, job_hkl_elements, [0])
+    run_jobs(chk, job_qvec_layout, ['', 'y', 'xz'])
     from . import shimval
     shimval.validate(chk, 'qvec', 40 if chk.tier == 'quick' else 1000)
     chk.bounds = {'shapes': 'scalar operands', 'matrices': 'U, B, R arbitrary real 3x3 (non-singular R.UB); W = inv(R.UB) as 9 fresh variables with M.W = I'}
@@ -344,6 +390,28 @@ def replay_real(case):
 
     rng = np.random.default_rng(2)
     bad = []
+    if case.get('kind') == 'qvec-layout':
+        for trial in range(20):
+            n_ = 4 if trial % 2 == 0 else 3
+            full = {c: sc.array(dims=['a', 'b'], values=rng.normal(size=(n_, n_)), unit='1/angstrom') for c in 'xyz'}
+            arg = {c: (full[c].transpose(['b', 'a']).copy() if c in case.get('transposed', 'y') else full[c]) for c in 'xyz'}
+            try:
+                qv = rt.Q_vec_from_Q_elements(Qx=arg['x'], Qy=arg['y'], Qz=arg['z'])
+            except Exception as e:  # noqa: BLE001
+                bad.append(f'components over the same labelled dims, {case.get("transposed")} stored transposed: {type(e).__name__}: {e}'[:200])
+                break
+            for i in range(n_):
+                for j in range(n_):
+                    got = list(qv['a', i]['b', j].value)
+                    exp = [full[c]['a', i]['b', j].value for c in 'xyz']
+                    if got != exp:
+                        bad.append(f'Q_vec[a={i}, b={j}] = {got}, components there are {exp} ({case.get("transposed")} stored with dims (b, a))')
+                        break
+                if bad:
+                    break
+            if bad:
+                break
+        return {'reproduced': bool(bad), 'detail': '; '.join(bad[:3])}
     ldt = case.get('wavelength_dtype', 'float64')
     for _ in range(100):
         b1, b2 = rng.normal(size=3) * 10 ** rng.uniform(-2, 2), rng.normal(size=3) * 10 ** rng.uniform(-2, 2)
